@@ -9,18 +9,30 @@ repo = sys.argv[1] if len(sys.argv) > 1 else os.environ.get("VERIF_REPO", "/repo
 base = json.load(open("/root/.vp/BASELINE.json"))
 env = {k: v for k, v in os.environ.items() if k not in ("STREAMFLOW_VERIF",)}
 env["PYTHONPATH"] = repo
-with tempfile.TemporaryDirectory() as d:
-    # the suite uses ~/.streamflow/<version>/sqlite.db: a private HOME keeps concurrent runs from locking each other out
-    env["HOME"] = os.path.join(d, "home")
-    os.makedirs(env["HOME"])
-    out = os.path.join(d, "r.xml")
-    p = subprocess.run(["/venv/bin/python", "-m", "pytest", "-ra", "-q", "-p", "no:cacheprovider", "--timeout=900",
-                        "--continue-on-collection-errors", "--junitxml=" + out], cwd=repo, env=env,
-                       stdout=subprocess.PIPE, stderr=subprocess.STDOUT, text=True, timeout=int(os.environ.get("BASELINE_TIMEOUT", "2400")))
-    passed = set()
-    for tc in ET.parse(out).getroot().iter("testcase"):
-        if not any(ch.tag in ("failure", "error", "skipped") for ch in tc):
-            passed.add("%s::%s" % (tc.get("classname"), tc.get("name")))
+passed = set()
+for attempt in (1, 2, 3):
+    # the suite occasionally hangs inside a third-party extension (observed under load): time-box and retry
+    with tempfile.TemporaryDirectory() as d:
+        # the suite uses ~/.streamflow/<version>/sqlite.db: a private HOME keeps concurrent runs from locking each other out
+        env["HOME"] = os.path.join(d, "home")
+        os.makedirs(env["HOME"])
+        out = os.path.join(d, "r.xml")
+        try:
+            p = subprocess.run(["/venv/bin/python", "-m", "pytest", "-ra", "-q", "-p", "no:cacheprovider", "--timeout=900",
+                                "--continue-on-collection-errors", "--junitxml=" + out], cwd=repo, env=env,
+                               stdout=subprocess.PIPE, stderr=subprocess.STDOUT, text=True,
+                               timeout=int(os.environ.get("BASELINE_TIMEOUT", "900")))
+        except subprocess.TimeoutExpired:
+            print("attempt %d: pytest did not finish within the time box, retrying" % attempt)
+            continue
+        if not os.path.exists(out):
+            print("attempt %d: no junit file" % attempt)
+            continue
+        passed = set()
+        for tc in ET.parse(out).getroot().iter("testcase"):
+            if not any(ch.tag in ("failure", "error", "skipped") for ch in tc):
+                passed.add("%s::%s" % (tc.get("classname"), tc.get("name")))
+        break
 want = set(base["stable_pass"])
 missing = sorted(want - passed)
 print("stable_pass=%d passed_now=%d missing=%d" % (len(want), len(passed), len(missing)))
